@@ -403,7 +403,7 @@ def knots_snippet(inp):
 def part_knots(rep, rng, drv, tier, A, E, cases=None):
     if cases is None:
         cases = []
-        n_cases = 4 if tier == "quick" else 60
+        n_cases = 4 if tier == "quick" else 24
         for ci in range(n_cases):
             kind = rng.choice(["pow", "exp"])
             spec, a, b = G.gen_function(rng, None, kinds=(kind,))
